@@ -109,9 +109,9 @@ def trace_from_log(log, meta):
     return tr
 
 
-def run_native(script, sup=True, sup_dead=False, named=False, abort_after=None):
+def run_native(script, sup=True, sup_dead=False, named=False, abort_after=None, tl=False):
     out, lines, rc, err = native.run('life', script=script, sup=1 if sup else 0, sup_dead=1 if sup_dead else 0, named=1 if named else 0, abort_after_entries=abort_after,
-                                     obs=1 if 'linkobs' in script else 0, timeout=30)
+                                     obs=1 if 'linkobs' in script else 0, tl=1 if tl else 0, timeout=30)
     if rc != 0:
         raise RuntimeError('native life replay failed: ' + err[-300:])
     return [x for x in out.get('log', '').split(',') if x]
@@ -147,10 +147,11 @@ def replay_trace(tag, trace, prop, sup=True, sup_dead=False, named=False):
     script, meta = script_from_trace(trace)
     if script is None:
         return {'replayed': False, 'detail': 'no native script for this path: %s' % meta}
-    log = run_native(script, sup, sup_dead, named, meta.get('abort_after_entries'))
+    tl = 'ThreadLocal' in str(tag)
+    log = run_native(script, sup, sup_dead, named, meta.get('abort_after_entries'), tl)
     bad, tr = evaluate(prop, log, meta, sup)
-    return {'replayed': bool(bad), 'detail': 'native scripted actor [%s]%s -> log %s ; violated %s' % (script, ' aborted after %s entries' % meta['abort_after_entries'] if 'abort_after_entries' in meta else '', log, bad),
-            'replay': {'scenario': 'life', 'prop': prop, 'script': script, 'meta': meta, 'sup': sup, 'sup_dead': sup_dead, 'named': named, 'violated': bad}}
+    return {'replayed': bool(bad), 'detail': 'native scripted %sactor [%s]%s -> log %s ; violated %s' % ('thread-local ' if tl else '', script, ' aborted after %s entries' % meta['abort_after_entries'] if 'abort_after_entries' in meta else '', log, bad),
+            'replay': {'scenario': 'life', 'prop': prop, 'script': script, 'meta': meta, 'sup': sup, 'sup_dead': sup_dead, 'named': named, 'thread_local': tl, 'violated': bad}}
 
 
 def replay_guard(mode, armed, noc):
@@ -162,7 +163,7 @@ def replay_guard(mode, armed, noc):
 
 def replay_from_json(d):
     rp = d['replay']
-    log = run_native(rp['script'], rp.get('sup', True), rp.get('sup_dead', False), rp.get('named', False), rp['meta'].get('abort_after_entries'))
+    log = run_native(rp['script'], rp.get('sup', True), rp.get('sup_dead', False), rp.get('named', False), rp['meta'].get('abort_after_entries'), rp.get('thread_local', False))
     bad, tr = evaluate(rp['prop'], log, rp['meta'], rp.get('sup', True))
     print('native log:', log)
     print('violated:', bad)
